@@ -399,7 +399,7 @@ pub fn points(tier: Tier) -> Vec<P13> {
                 }
             }
             // belief price variants: belief = pool price x {0.5, 0.99, 1, 1.01, 2}, tolerance ladder
-            for tol in [None, Some(0u128), Some(E18 / 100), Some(E18 / 2)] {
+            for tol in [None, Some(0u128), Some(E18 / 100), Some(E18 / 2), Some(E18 * 7 / 10), Some(E18), Some(2 * E18)] {
                 for (bn, bd) in [(1u128, 2u128), (99, 100), (1, 1), (101, 100), (2, 1), (1, 1000)] {
                     // belief price = offer per ask = x/y scaled
                     let b = big(*x) * big(E18) * big(bn) / (big(*y) * big(bd));
@@ -407,7 +407,8 @@ pub fn points(tier: Tier) -> Vec<P13> {
                     if b == 0 || b == u128::MAX {
                         continue;
                     }
-                    for o in [x / 1000 + 1, x / 100 + 1, x / 10 + 1] {
+                    // offers up to several times the reserve: the return falls more than 50 % short of the belief
+                    for o in [x / 1000 + 1, x / 100 + 1, x / 10 + 1, *x + *x / 2, *x * 4] {
                         v.push(P13::CpSwap { x: *x, y: *y, fees: f.clone(), offer: o, tol, belief: Some(b) });
                     }
                 }
